@@ -293,8 +293,12 @@ func runCase(c *Case) vh.Outcome {
 	flushed := make(chan struct{}, 1)
 	go func() {
 		for m := range sendQ {
-			if m.Data == nil && m.Binary { // marker: everything queued before has been written
-				flushed <- struct{}{}
+			if m.Data == nil && m.Binary { // marker: everything queued before has been written; now the backend closes
+				bc.Close()
+				select {
+				case flushed <- struct{}{}:
+				default:
+				}
 				continue
 			}
 			if m.Data == nil {
@@ -406,10 +410,10 @@ func runCase(c *Case) vh.Outcome {
 				hasText = true
 			}
 		}
-		sendQ <- shimrig.WSMsg{Binary: true} // marker
-		<-flushed
+		// the close follows the messages in the backend's own order of writing; the client polls meanwhile (waiting for
+		// everything to be written first would stall: nobody drains the agent while the harness waits)
+		sendQ <- shimrig.WSMsg{Binary: true} // marker: close after everything queued so far
 		pendingAtClose := len(sentServer) - len(gotServer)
-		bc.Close()
 		time.Sleep(time.Duration(c.Tail.WaitMs) * time.Millisecond)
 		o.Classes = append(o.Classes, "backend-closes-at-the-end")
 		if pendingAtClose > 10 {
